@@ -1,4 +1,5 @@
 import Vflow.Proofs.SflowSpec2
+import Vflow.Gen.OptionsTbl
 /-!
 # C18 — the sFlow type filter removes exactly the listed sample types
 
@@ -120,5 +121,16 @@ theorem framing_needed : ∃ f bs, decode f bs ≠ (decode [] bs).map (dropTypes
   ⟨[1], [0,0,0,5, 0,0,0,1, 10,0,0,1, 0,0,0,0, 0,0,0,1, 0,0,0,2, 0,0,0,2,
          0,0,0,1, 0,0,0,0, 0,0,0,7, 0,0,0,0, 0,0,0,1, 0,0,0,2, 0,0,0,0, 0,0,0,3, 0,0,0,4, 0,0,0,0,
          0,0,0,2, 0,0,0,12, 0,0,0,9, 0,0,0,0, 0,0,0,0], by decide⟩
+
+/-- **Tie (how the filter list is configured)**: the property quantifies over filter LISTS; how the option builds its
+list is package `vflow`'s `arrUInt32Flags.Set`, regenerated here: every occurrence of `-sflow-type-filter` (and the
+configuration file's entry before them) APPENDS its comma-separated types, so a type listed anywhere is in the list the
+decoder gets.  (A `Set` that replaced the list would silently un-list the types given earlier; the configuration of a
+list key is outside C17, which covers integer / string / boolean settings.) -/
+theorem gen_filter_flag_appends :
+    Gen.OptionsTbl.filterFlagSet =
+      ["arr := strings.Split(value, \",\")",
+       "for _, v := range arr { v64, err := strconv.ParseUint(v, 10, 32) if err != nil { return err } *a = append(*a, uint32(v64)) }",
+       "return nil"] := by decide
 
 end Vflow.C18
